@@ -236,6 +236,11 @@ func c02Descriptions() []string {
 		"Synopsis\n\t\nafter a line holding a tab",
 		"Synopsis\r\nbody with CRLF line ends\r\n\r\nlast\r\n",
 		"Synopsis  with   runs of blanks\tand a tab\u00a0and a no-break space",
+		// lines beyond the 64 KiB a line reader holds by default, the first
+		// and a later one
+		"Synopsis\n" + strings.Repeat("x", 70000) + "\nlast line",
+		strings.Repeat("y", 70000),
+		"Synopsis\n" + strings.Repeat("word ", 40000) + "\n\nlast line",
 	}
 }
 
